@@ -50,7 +50,21 @@ class _LibraryState:
 
     SKIP = (types.ModuleType, types.FunctionType, types.BuiltinFunctionType, type)
 
+    _cache = {"n": -1, "targets": None, "functions": None}
+
     def _targets(self):
+        c = self._cache
+        if c["n"] != len(sys.modules) or c["targets"] is None:
+            c["n"] = len(sys.modules)
+            c["targets"] = list(self._targets_scan())
+            c["functions"] = list(self._functions_scan())
+        return c["targets"]
+
+    def _functions(self):
+        self._targets()
+        return self._cache["functions"]
+
+    def _targets_scan(self):
         for name, mod in list(sys.modules.items()):
             if mod is None or not (name == "toqito" or name.startswith("toqito.")):
                 continue
@@ -72,6 +86,50 @@ class _LibraryState:
             out[k] = v
         return out
 
+    def _functions_scan(self):
+        """Functions and methods defined in toqito modules (module level and in classes)."""
+        seen = set()
+        for name, mod in list(sys.modules.items()):
+            if mod is None or not (name == "toqito" or name.startswith("toqito.")):
+                continue
+            for v in list(vars(mod).values()):
+                cands = [v]
+                if isinstance(v, type) and getattr(v, "__module__", "").startswith("toqito."):
+                    cands = [getattr(w, "__func__", w) for w in vars(v).values()]
+                for f in cands:
+                    if id(f) in seen:
+                        continue
+                    if hasattr(f, "cache_clear") or (isinstance(f, types.FunctionType) and getattr(f, "__module__", "").startswith("toqito")):
+                        seen.add(id(f))
+                        yield f
+
+    def capture_functions(self):
+        """Mutable default arguments (shared by every call) and memoising wrappers."""
+        out = []
+        for f in self._functions():
+            inner = getattr(f, "__wrapped__", f)
+            d = getattr(inner, "__defaults__", None) or ()
+            kd = getattr(inner, "__kwdefaults__", None) or {}
+            muts = [(v, copy.deepcopy(v)) for v in list(d) + list(kd.values()) if isinstance(v, (list, dict, set))]
+            if muts or hasattr(f, "cache_clear"):
+                out.append((f, muts))
+        return out
+
+    def restore_functions(self, saved):
+        for f, muts in saved:
+            if hasattr(f, "cache_clear"):
+                try:
+                    f.cache_clear()
+                except Exception:
+                    pass
+            for v, cp in muts:
+                fresh = copy.deepcopy(cp)
+                if isinstance(v, list):
+                    v[:] = fresh
+                else:
+                    v.clear()
+                    v.update(fresh)
+
     def capture(self):
         saved = []
         for obj in self._targets():
@@ -84,12 +142,23 @@ class _LibraryState:
                     except Exception:
                         pass
             saved.append((obj, data, copies))
+        saved.append(("functions", self.capture_functions(), None))
         return saved
 
     def restore(self, saved):
         captured = set(id(obj) for obj, _, _ in saved)
         # modules imported after the capture keep whatever they have; everything captured goes back
         for obj, data, copies in saved:
+            if isinstance(obj, str):
+                self.restore_functions(data)
+                # memoising wrappers created after the capture are emptied as well
+                for f in self._functions():
+                    if hasattr(f, "cache_clear"):
+                        try:
+                            f.cache_clear()
+                        except Exception:
+                            pass
+                continue
             now = self._data(obj)
             for k in now:
                 if k not in data:
